@@ -73,6 +73,11 @@ def legal_durations(p):
         elif isinstance(m, dict):
             for b in m['bursts']:
                 vals.update(b)
+    if p['eclass'] not in ('H', 'M'):
+        # bit-class tables: a run of k equal bits is one duration of k units
+        for x in list(vals):
+            for k in range(2, 41):
+                vals.add(x * k)
     base = set(vals)
     # merged durations (sums of two and three legal durations of one sign)
     for a in base:
